@@ -543,6 +543,14 @@ impl RuleLT09 {
         }
 
         if select_targets_info.comment_after_select_idx.is_none() {
+            // The target takes the place of the line break: keep it apart from a comment
+            // that starts the next line (`*` + `/* c */` would read `*/` + `* c */`).
+            if select_children
+                .get(select_targets_info.first_new_line_idx.unwrap() + 1, None)
+                .is_some_and(|seg| seg.is_comment())
+            {
+                insert_buff.push(SegmentBuilder::whitespace(context.tables.next_id(), " "));
+            }
             fixes.push(LintFix::replace(
                 select_children[select_targets_info.first_new_line_idx.unwrap()].clone(),
                 insert_buff,
